@@ -11,7 +11,17 @@ def sufficient(p):
     return all(d for l, d in p.guards if l.startswith('AVAIL'))
 
 
+LAST_UNGUARDED = set()
+
+
 def seqs(paths):
+    """first-sequence outcomes of the paths with enough input; reads past the end on the paths where the input ran out are remembered for
+    the bounds rule (a position tested against end with the answer "not available" and dereferenced all the same)"""
+    LAST_UNGUARDED.clear()
+    for p in paths:
+        if not sufficient(p):
+            for u in U.first_sequence(p)[5]:
+                LAST_UNGUARDED.add(u)
     return [(U.first_sequence(p), p) for p in paths if sufficient(p)]
 
 
@@ -79,7 +89,7 @@ class Collector(object):
     def cell(self, name, results, expect_units, expect_consumed, reason, max_consumed=None):
         rep = self.rep
         accepted, rejected, other = classify(results)
-        ung = ungarded_of(results)
+        ung = ungarded_of(results) | set(LAST_UNGUARDED)
         site = '%s|%s' % (self.codec, name)
         if self.rule_bounds:
             if ung:
